@@ -26,6 +26,9 @@ def run(tier, rng, C):
         nl = rng.randint(2, 5)
         nest = rng.random() < 0.4
         vals = [layer_value(rng, 2) for _ in range(nl)]
+        if rng.random() < 0.3:
+            dd = rng.randint(2, 4)
+            vals = [V.spine_map(rng, dd, j) for j in range(nl)]
         # make most stacks mergeable: same kind
         if rng.random() < 0.6:
             kind = rng.choice(['m', 'l'])
